@@ -28,6 +28,18 @@ pub fn n_class(n: usize, min: usize) -> String {
     }
 }
 
+/// occasionally (2.5 %) a long axis: lengths around powers of two and a few hundred points
+pub fn pick_n_long(rng: &mut Rng, min: usize, max: usize, long_max: usize) -> usize {
+    if long_max > max && rng.chance(0.025) {
+        let cands = [31usize, 32, 33, 63, 64, 65, 100, 127, 128, 129, 160, 255, 256, 257, 300, 513, 1000, 1025];
+        let ok: Vec<usize> = cands.iter().copied().filter(|&c| c <= long_max && c >= min).collect();
+        if !ok.is_empty() {
+            return *rng.pick(&ok);
+        }
+    }
+    pick_n(rng, min, max)
+}
+
 pub fn pick_n(rng: &mut Rng, min: usize, max: usize) -> usize {
     match rng.below(10) {
         0 | 1 => min,
@@ -76,7 +88,7 @@ pub fn deriv_scales<T: Flt>(x: &[T], data: &ArrayD<T>) -> (f64, f64) {
 }
 
 pub fn gen_spline_case<T: Flt>(rng: &mut Rng, o: &SplineOpts) -> (Spec1<T>, Labels) {
-    let n = pick_n(rng, 3, o.max_n.max(3));
+    let n = pick_n_long(rng, 3, o.max_n.max(3), if o.max_n >= 40 { 160 } else { 0 });
     let use_default_axis = rng.chance(0.08);
     let class = *rng.pick(&AxisClass::SMOOTH);
     let x: Vec<T> = if use_default_axis {
@@ -84,7 +96,14 @@ pub fn gen_spline_case<T: Flt>(rng: &mut Rng, o: &SplineOpts) -> (Spec1<T>, Labe
     } else {
         gen_axis(rng, n, class, &AxisOpts::spline())
     };
-    let lanes = gen_lane_shape(rng, o.max_lane_rank, o.allow_zero_lanes);
+    let mut lanes = gen_lane_shape(rng, o.max_lane_rank, o.allow_zero_lanes);
+    if n > 40 {
+        // long axes: at most two lanes (the exact checker works per lane)
+        while lanes.iter().product::<usize>() > 2 {
+            let i = (0..lanes.len()).max_by_key(|&i| lanes[i]).unwrap();
+            lanes[i] -= 1;
+        }
+    }
     let mut shape = vec![n];
     shape.extend(&lanes);
     let dclass = *rng.pick(&DataClass::ALL);
@@ -240,7 +259,7 @@ pub fn extreme_exponents<T: Flt>(rng: &mut Rng) -> (i32, i32) {
 }
 
 pub fn gen_linear_case<T: Flt>(rng: &mut Rng, o: &LinearOpts) -> (Spec1<T>, Labels) {
-    let n = pick_n(rng, 2, o.max_n.max(2));
+    let n = pick_n_long(rng, 2, o.max_n.max(2), if o.max_n >= 40 { 1025 } else { 0 });
     let use_default_axis = rng.chance(0.1);
     let class = if o.allow_cluster {
         *rng.pick(&AxisClass::ALL)
@@ -252,7 +271,13 @@ pub fn gen_linear_case<T: Flt>(rng: &mut Rng, o: &LinearOpts) -> (Spec1<T>, Labe
     } else {
         gen_axis(rng, n, class, &AxisOpts::linear())
     };
-    let lanes = gen_lane_shape(rng, o.max_lane_rank, o.allow_zero_lanes);
+    let mut lanes = gen_lane_shape(rng, o.max_lane_rank, o.allow_zero_lanes);
+    if n > 40 {
+        while lanes.iter().product::<usize>() > 4 {
+            let i = (0..lanes.len()).max_by_key(|&i| lanes[i]).unwrap();
+            lanes[i] -= 1;
+        }
+    }
     let mut shape = vec![n];
     shape.extend(&lanes);
     let dclass = *rng.pick(&DataClass::ALL);
@@ -344,8 +369,8 @@ pub struct Labels2 {
 }
 
 pub fn gen_grid_case<T: Flt>(rng: &mut Rng, o: &GridOpts) -> (Spec2<T>, Labels2) {
-    let nx = pick_n(rng, 2, o.max_nx.max(2));
-    let ny = pick_n(rng, 2, o.max_ny.max(2));
+    let nx = pick_n_long(rng, 2, o.max_nx.max(2), if o.max_nx >= 12 { 65 } else { 0 });
+    let ny = pick_n_long(rng, 2, o.max_ny.max(2), if o.max_ny >= 9 { 33 } else { 0 });
     let classes: &[AxisClass] = if o.allow_cluster {
         &AxisClass::ALL
     } else {
